@@ -1,0 +1,96 @@
+//go:build verif
+
+// Contracts checked by /verif/govc (comment-only; compiled only with -tags verif).
+//
+// Denotational contracts of the circuit-construction interfaces (vocabulary: /verif/contracts/ext/gadget.spec).
+// Source of every clause: the doc comment of the method in api.go / compiler.go / builder.go. The gadgets of
+// std/ are verified against these interface contracts for an arbitrary wire assignment: a constraint the
+// call emits holds in every satisfying assignment and is therefore a postcondition; values returned by
+// NewHint are unconstrained.
+package frontend
+
+//@ contract iface API.Add
+//@   pure
+//@   ensures stable(result)
+//@   ensures len(in) == 0 ==> den(result) == fadd(den(i1), den(i2))
+//@   ensures len(in) == 1 ==> den(result) == fadd(fadd(den(i1), den(i2)), den(in[0]))
+//@ contract iface API.Sub
+//@   pure
+//@   ensures stable(result)
+//@   ensures len(in) == 0 ==> den(result) == fsub(den(i1), den(i2))
+//@ contract iface API.Neg
+//@   pure
+//@   ensures stable(result)
+//@   ensures den(result) == fneg(den(i1))
+//@ contract iface API.Mul
+//@   pure
+//@   ensures stable(result)
+//@   ensures len(in) == 0 ==> den(result) == fmul(den(i1), den(i2))
+//@   ensures len(in) == 1 ==> den(result) == fmul(fmul(den(i1), den(i2)), den(in[0]))
+//@ contract iface API.DivUnchecked
+//@   pure
+//@   ensures stable(result)
+//@   ensures fmul(den(result), den(i2)) == den(i1)
+//@ contract iface API.Div
+//@   pure
+//@   ensures stable(result)
+//@   ensures den(i2) != f0 && fmul(den(result), den(i2)) == den(i1)
+//@ contract iface API.Inverse
+//@   pure
+//@   ensures stable(result)
+//@   ensures fmul(den(result), den(i1)) == f1
+//@ contract iface API.Select
+//@   pure
+//@   ensures stable(result)
+//@   ensures isBool(den(b)) && den(result) == (den(b) == f1 ? den(i1) : den(i2))
+//@ contract iface API.IsZero
+//@   pure
+//@   ensures stable(result)
+//@   ensures den(result) == (den(i1) == f0 ? f1 : f0)
+//@ contract iface API.And
+//@   pure
+//@   ensures stable(result)
+//@   ensures isBool(den(a)) && isBool(den(b)) && den(result) == fmul(den(a), den(b))
+//@ contract iface API.Or
+//@   pure
+//@   ensures stable(result)
+//@   ensures isBool(den(a)) && isBool(den(b)) && den(result) == ((den(a) == f1 || den(b) == f1) ? f1 : f0)
+//@ contract iface API.Xor
+//@   pure
+//@   ensures stable(result)
+//@   ensures isBool(den(a)) && isBool(den(b)) && den(result) == (den(a) == den(b) ? f0 : f1)
+//@ contract iface API.AssertIsEqual
+//@   pure
+//@   ensures den(i1) == den(i2)
+//@ contract iface API.AssertIsDifferent
+//@   pure
+//@   ensures den(i1) != den(i2)
+//@ contract iface API.AssertIsBoolean
+//@   pure
+//@   ensures isBool(den(i1))
+//@ contract iface API.AssertIsLessOrEqual
+//@   pure
+//@   ensures ival(den(v)) <= ival(den(bound))
+//@ contract iface API.Compiler
+//@   pure
+//@   ensures result != nil
+//@ contract iface API.Println
+//@   pure
+
+//@ contract iface Compiler.FieldBitLen
+//@   pure
+//@   ensures result == fieldBits()
+//@ contract iface Compiler.ConstantValue
+//@   pure
+//@   ensures result.1 ==> result.0 != nil && fresh(result.0) && den(v) == ofInt(*result.0) && 0 <= *result.0 && *result.0 < fieldP()
+//@ contract iface Compiler.NewHint
+//@   pure
+//@   ensures result.1 == nil ==> len(result.0) == nbOutputs && fresh(result.0)
+//@   ensures result.1 == nil ==> forall k int :: 0 <= k && k < nbOutputs ==> isWire(result.0[k])
+//@ contract iface Compiler.Field
+//@   pure
+//@   ensures result != nil && fresh(result) && *result == fieldP()
+
+//@ contract iface Rangechecker.Check
+//@   pure
+//@   ensures fits(ival(den(v)), bits)
